@@ -74,7 +74,7 @@ static long baseErrors;
 static std::set<Ref> pinned;            // objects on which dontUseRefs() was called
 static std::map<Ref, int> canon;        // canonical ids by first sight in the fixed scan order
 static int nextCanon;
-static const char *kernelSource = "@kernel void k(const int n, int *a) { for (int i = 0; i < n; ++i; @tile(4, @outer, @inner)) { a[i] = i; } }";
+static const char *kernelSource = "@kernel void k(const int n, int *a) { for (int b = 0; b < n; b += 4; @outer) { for (int i = b; i < b + 4; ++i; @inner) { if (i < n) a[i] = i; } } }";
 
 static long liveRel(int kind) { return ov::live(kind) - base[kind]; }
 
@@ -426,7 +426,7 @@ static std::string step(const std::vector<std::string> &t) {
       }
     } else if (op == "mkdev" && t.size() == 2 && v1 && k1 == HD) {
       if (!vlive[k1][i1]) return "bad-op";
-      D(i1) = occa::device("{mode: 'Serial'}");
+      D(i1) = occa::device(std::string("{mode: 'Serial'}"));
     } else if (op == "malloc" && t.size() == 4 && v1 && v2 && k1 == HM && k2 == HD) {
       if (!vlive[k1][i1] || !vlive[k2][i2]) return "bad-op";
       long n = std::strtol(t[3].c_str(), NULL, 10);
@@ -476,7 +476,7 @@ int main() {
   // things the library creates once (host device, its stream, ...) must not count as leaks
   occa::host();
   {
-    occa::device warm("{mode: 'Serial'}");
+    occa::device warm(std::string("{mode: 'Serial'}"));
     occa::kernel k = warm.buildKernelFromString(kernelSource, "k");   // compiled once, cached afterwards
     occa::memoryPool p = warm.createMemoryPool();
     occa::memory m = p.reserve(16, occa::dtype::byte);
